@@ -253,7 +253,7 @@ func init() {
 				}
 				part := strs[i:j]
 				w.Case(fmt.Sprintf("strings/%d-%d", i, j-1), func(c *C) {
-					c.Add("evaluations_override", int64(len(part)))
+					c.Add("evaluations_extra", int64(len(part)))
 					packed := c03universe()
 					double := c03universe()
 					type ent struct {
@@ -356,7 +356,7 @@ func init() {
 				}
 				part := seqs[i:j]
 				w.Case(fmt.Sprintf("sequences/%d-%d", i, j-1), func(c *C) {
-					c.Add("evaluations_override", int64(len(part)))
+					c.Add("evaluations_extra", int64(len(part)))
 					cfg := c03seqBase()
 					args := c03seqBase()
 					var ops, aops []ProbeOp
